@@ -90,7 +90,8 @@ def run(name, checks):
     HEAD first) and the checks run with VERIF_REPO=<dir>: /repo itself is not touched."""
     dst = os.path.join(SEEDED, name)
     meta = json.load(open(os.path.join(dst, "meta.json")))
-    checks = checks or [meta["breaks"]]
+    # check_with: the change was asked for one property but is a violation of another one's statement
+    checks = checks or meta.get("check_with") or [meta["breaks"]]
     tree = os.environ.get("SEED_WORKTREE", REPO)
     env = dict(os.environ)
     if tree != REPO:
@@ -140,7 +141,7 @@ if __name__ == "__main__":
                 continue
             run(name, [])
             meta = json.load(open(os.path.join(SEEDED, name, "meta.json")))
-            res = meta["checks"].get(meta["breaks"], {})
+            res = meta["checks"].get((meta.get("check_with") or [meta["breaks"]])[0], {})
             rows.append((name, meta["breaks"], res.get("exit"), res.get("violations")))
         print("\n== summary")
         for r in rows:
